@@ -399,6 +399,14 @@ class VC:
             pass
         budget_left = self._failures < 3
         short = min(self.timeout_s, 4)
+        # 0. case split on the If-conditions inside the goal, exact identity check per feasible case
+        try:
+            cs = self._case_split(pc, goal)
+        except z3.Z3Exception:
+            cs = None
+        if cs is True:
+            return "discharged", "case-split+polyid", None, None
+
         # 1. incremental check on the path solver (short budget first)
         s = CTX.solver
         s.push()
@@ -456,6 +464,50 @@ class VC:
                 reason = f"{reason}; cvc5: {e}"
         self._failures += 1
         return "unknown", None, None, reason
+
+    def _case_split(self, pc, goal, max_leaves=600):
+        """DFS over the feasible truth assignments of the If-conditions occurring in `goal`; in each
+        leaf the goal is If-free and must be valid by normal form (polyid) or by a short solver call.
+        Returns True if every feasible case is valid, None if undecided (never claims a refutation)."""
+        if not _has_ite(goal):
+            return None
+        deadline = time.time() + max(10.0, self.timeout_s * 2)
+        s = z3.Solver()
+        s.set("timeout", 2000)
+        s.add(*pc)
+        leaves = [0]
+
+        def rec(g):
+            if time.time() > deadline or leaves[0] > max_leaves:
+                return None
+            g = z3.simplify(g)
+            if z3.is_true(g):
+                return True
+            c = _first_ite_cond(g)
+            if c is None:
+                leaves[0] += 1
+                if all(_cheaply_valid(p) for p in _flatten_and(g)):
+                    return True
+                s.push()
+                s.add(z3.Not(g))
+                r = s.check()
+                s.pop()
+                return True if r == z3.unsat else None
+            for val in (True, False):
+                lit = c if val else z3.Not(c)
+                s.push()
+                s.add(lit)
+                feas = s.check()
+                if feas == z3.unsat:
+                    s.pop()
+                    continue
+                r = rec(z3.substitute(g, (c, z3.BoolVal(val))))
+                s.pop()
+                if r is not True:
+                    return None
+            return True
+
+        return rec(goal)
 
     def _candidate_refute(self, pc, goal, tries=3):
         """substitute random admissible input values (the contract's generators), ask z3 for the rest"""
@@ -601,6 +653,43 @@ class VC:
             ],
             "notes": self.notes,
         }
+
+
+def _has_ite(t):
+    seen, stack = set(), [t]
+    while stack:
+        e = stack.pop()
+        if e.get_id() in seen:
+            continue
+        seen.add(e.get_id())
+        if z3.is_app(e) and e.decl().kind() == z3.Z3_OP_ITE:
+            return True
+        stack.extend(e.children())
+    return False
+
+
+def _first_ite_cond(t):
+    """condition of an outermost If-term (BFS), preferring conditions that are themselves If-free"""
+    from collections import deque
+
+    seen, q = set(), deque([t])
+    fallback = None
+    while q:
+        e = q.popleft()
+        if e.get_id() in seen:
+            continue
+        seen.add(e.get_id())
+        if z3.is_app(e) and e.decl().kind() == z3.Z3_OP_ITE:
+            c = e.children()[0]
+            if not _has_ite(c):
+                return c
+            fallback = c if fallback is None else fallback
+            q.append(c)
+            continue
+        q.extend(e.children())
+    if fallback is not None:
+        return _first_ite_cond(fallback)
+    return None
 
 
 def _flatten_and(t):
